@@ -13,6 +13,7 @@ VARIABLES i, bad
 Obj(terms) == SSumSeq(terms)
 Failing(e) ==
      (IF e.before = e.after THEN {} ELSE {"Restored"})
+\cup (IF e.outcome \in {"returned", "aborted"} THEN {} ELSE {"UnknownOutcome"})     \* (the verdict is total: a record that is neither is not silently exempt from the clauses below)
 \cup (IF e.outcome = "returned" /\ ~SLe(Obj(e.t1), SAdd(Obj(e.t0), Tol(Obj(e.t0), K1e9, 64 + Len(e.t0)))) THEN {"NoWorse"} ELSE {})
 \cup (IF e.outcome = "returned" /\ \E j \in 1..Len(e.vals) : ~(SLe(e.lows[j], SAdd(e.vals[j], Tol(e.vals[j], K1e9, 8))) /\ (e.highs[j].s < 0 \/ SLe(e.vals[j], SAdd(e.highs[j], Tol(e.highs[j], K1e9, 8))))) THEN {"InBounds"} ELSE {})
 \cup (IF e.outcome = "returned" /\ e.hastotal /\ ~SClose(e.total1, e.total0, K1e6, 64) THEN {"HardTargetKept"} ELSE {})
